@@ -1105,8 +1105,12 @@ pub fn run_scenario(ctx: &mut Ctx, _spec: &CheckSpec, sc: &Value, run_id: &str) 
                 let mut k = 0;
                 for first in [0usize, 1] {
                     let (na, nb) = if first == 0 { (n0, n1) } else { (n1, n0) };
+                    let b_full = sc["plan"]["b_full"].as_bool().unwrap_or(false);
                     for a in 0..=na.min(cap) {
                         for b in 1..=nb.min(cap) {
+                            if b_full && b != nb.min(cap) {
+                                continue; // only: the other client runs from start to end at this point
+                            }
                             let plan = json!({"faults":[],"schedule":{"policy":"switch","order":[first, 1 - first, first, 1 - first],"points":[a.max(1), b, 1000000, 1000000],"skip_first": a == 0}});
                             if a == 0 && first == 1 {
                                 continue; // same as starting with the other client
@@ -1514,12 +1518,26 @@ fn gen_c07(rng: &mut Rng, r: u64, tier: &str) -> Value {
         }
         _ => prelude.push(json!({"k":"api","op":"write","entry":"write","val":0,"bin":"tokio","mode":"async"})),
     }
-    let nclients = if rng.chance(1, 4) { 3 } else { 2 };
+    let bulky = rng.chance(1, 16);
+    if bulky {
+        // the shared key already has a long history: its bucket is tens to hundreds of KiB before the clients start
+        // (any size-triggered behaviour of the index code - compaction, rotation, buffering - is then due at some
+        // insert; lengths and counts vary so that it is sometimes the insert of one of the clients)
+        let (pad, lo, hi) = *rng.pick(&[(9000usize, 8u64, 24u64), (1500, 20, 60), (30000, 2, 9), (70000, 1, 5), (70000, 1, 5)]);
+        let n = rng.range(lo, hi);
+        let fp = *rng.pick(&PURE);
+        for i in 0..n {
+            prelude.push(json!({"k":"api","op":"write","entry":"opts","key":0,"val":2,"opts":{"time":(10 + i).to_string(),"meta":{"pad":"p".repeat(pad)}},"bin":fp.0,"mode":fp.1}));
+        }
+    }
+    let nclients = if !bulky && rng.chance(1, 4) { 3 } else { 2 };
     let mut clients = Vec::new();
     for ci in 0..nclients {
         let f = flav(rng);
         let vi = if rng.chance(2, 3) { 0 } else { 1 };
-        let st = match rng.below(12) {
+        // with a long history: one client writes or removes the key, the others look at it
+        let pickop = if bulky { if ci == 0 { *rng.pick(&[0u64, 1, 9]) } else { *rng.pick(&[6u64, 8, 8, 11, 0]) } } else { rng.below(12) };
+        let st = match pickop {
             0..=3 => {
                 // writers of the same key (different or identical content)
                 let mut w = json!({"k":"api","op":"write","entry":*rng.pick(&["write","opts","create"]),"key":0,"val":vi});
@@ -1535,6 +1553,7 @@ fn gen_c07(rng: &mut Rng, r: u64, tier: &str) -> Value {
             8 => json!({"k":"api","op":"metadata","key":0}),
             9 => json!({"k":"api","op":"remove","key":0}),
             10 => json!({"k":"api","op":*rng.pick(&["remove_hash","remove_hash","exists"]),"addr":{"val":0,"algo":"sha256"}}),
+            _ if bulky => json!({"k":"api","op":"list"}),
             _ => json!({"k":"api","op":*rng.pick(&["list","remove_hash"]),"addr":{"val":0,"algo":"sha256"}}),
         };
         let mut st = st;
@@ -1552,6 +1571,11 @@ fn gen_c07(rng: &mut Rng, r: u64, tier: &str) -> Value {
     }
     observe.push(json!({"k":"api","op":"list","bin":"sync","mode":"sync"}));
     let policy = if tier == "quick" { *rng.pick(&["random", "random", "pct"]) } else { *rng.pick(&["random", "pct", "pct"]) };
+    if bulky {
+        // at every point of one client's call sequence the other client runs from start to end
+        return json!({"keys":keys,"vals":vals,"prelude":prelude,"clients":clients,"post":[],"final_observe":observe,"check_partial_records":true,
+               "plan":{"kind":"enumerate_switches","cap":60,"b_full":true},"oracle":"serial"});
+    }
     if nclients == 2 && r % (if tier == "quick" { 250 } else { 300 }) == 7 {
         return json!({"keys":keys,"vals":vals,"prelude":prelude,"clients":clients,"post":[],"final_observe":observe,"check_partial_records":true,
                "plan":{"kind":"enumerate_switches","cap": if tier == "quick" { 24 } else { 40 }},"oracle":"serial"});
